@@ -291,6 +291,29 @@ impl CallRec {
     }
 }
 
+/// Run `op` on `f` with any Runtime implementation.
+pub fn dispatch<RT: Runtime<Id>>(f: &mut F, op: &Op, mut rec: RT, new_cfg: &mut Option<Cfg>) -> Result<Option<bool>, Error> {
+    match op {
+        Op::Data(d) => f.handle_data(d, &mut rec).map(|_| None),
+        Op::Timer(t) => f.handle_timer(t.clone(), &mut rec).map(|_| None),
+        Op::Announce(dst) => f.announce(*dst, &mut rec).map(|_| None),
+        Op::Gossip => f.gossip(&mut rec).map(|_| None),
+        Op::Broadcast => f.broadcast(&mut rec).map(|_| None),
+        Op::Leave => f.leave_cluster(&mut rec).map(|_| None),
+        Op::AddBroadcast(d) => f.add_broadcast(d).map(Some),
+        Op::Apply(us, b) => f.apply_many(us.iter().cloned(), *b, &mut rec).map(|_| None),
+        Op::ChangeId(id) => f.change_identity(*id, &mut rec).map(|_| None),
+        Op::Reuse => f.reuse_down_identity().map(|_| None),
+        Op::SetConfig(c) => {
+            let r = f.set_config(c.to_config()).map(|_| None);
+            if r.is_ok() {
+                *new_cfg = Some(c.clone());
+            }
+            r
+        }
+    }
+}
+
 thread_local! {
     static LAST_PANIC: RefCell<Option<(String, String)>> = const { RefCell::new(None) };
 }
@@ -365,27 +388,7 @@ impl Node {
         let mut rec = Rec::default();
         let f = &mut self.f;
         let mut new_cfg = None;
-        let out = catch_unwind(AssertUnwindSafe(|| -> Result<Option<bool>, Error> {
-            match &op {
-                Op::Data(d) => f.handle_data(d, &mut rec).map(|_| None),
-                Op::Timer(t) => f.handle_timer(t.clone(), &mut rec).map(|_| None),
-                Op::Announce(dst) => f.announce(*dst, &mut rec).map(|_| None),
-                Op::Gossip => f.gossip(&mut rec).map(|_| None),
-                Op::Broadcast => f.broadcast(&mut rec).map(|_| None),
-                Op::Leave => f.leave_cluster(&mut rec).map(|_| None),
-                Op::AddBroadcast(d) => f.add_broadcast(d).map(Some),
-                Op::Apply(us, b) => f.apply_many(us.iter().cloned(), *b, &mut rec).map(|_| None),
-                Op::ChangeId(id) => f.change_identity(*id, &mut rec).map(|_| None),
-                Op::Reuse => f.reuse_down_identity().map(|_| None),
-                Op::SetConfig(c) => {
-                    let r = f.set_config(c.to_config()).map(|_| None);
-                    if r.is_ok() {
-                        new_cfg = Some(c.clone());
-                    }
-                    r
-                }
-            }
-        }));
+        let out = catch_unwind(AssertUnwindSafe(|| dispatch(f, &op, &mut rec, &mut new_cfg)));
         let res = match out {
             Ok(Ok(None)) => Res::Ok,
             Ok(Ok(Some(b))) => Res::Bool(b),
